@@ -137,6 +137,7 @@ func (rn *runner) one(src []byte, origin string) {
 
 // handInputs are small inputs aimed at recovery paths; every prefix of each is run too.
 var handInputs = []string{
+	"a = first([]...)", "a = firstn(\"a\", []...)", "a = blame([]...)", "a = blame(1, [2, 3]...)", "a = blame(1, []...)", "a = \"${first([]...)}\"", "a = first(l...)", "a = firstn(x, l...)", "a = [for v in [[], [1]] : first(v...)]",
 	"{\"a\": \"x\xff\"}", "\"x\xff\"", "{\"a\xff\": 1}", "[\"\xc3\", {\"k\": \"\xe2\x82\"}]", "{\"a\": \"${x}\xff\"}",
 	"", "a", "a =", "a = 1", "a = 1\n", "a {", "a {}", "a { 1 }", "a { b }", "a { b c }", "a { \"x\" }", "a { b = }", "a { b = 1 c }", "a { b = 1\n", "a { b = 1 } c", "a { b {} }", "a { b = 1 }", "a { b = 1, c = 2 }", "a { b = 1\n}", "a \"l\" {", "a \"${x}\" {}", "a \"l", "a = = 1", "a b c", "a {\nb {\n", "}", "a = }", "a = )", "a = ]",
 	"a = (", "a = (1", "a = (1,", "a = [", "a = [1", "a = [1,", "a = [1 2]", "a = {", "a = {b", "a = {b =", "a = {b = 1", "a = {b = 1 c = 2}", "a = {b = 1,, }", "a = {(b) = 1}", "a = {b: 1}",
